@@ -27,10 +27,11 @@ const (
 )
 
 type docToken struct {
-	id   int
-	fmt  string // "yaml" | "json"
-	obj  value
-	size int
+	broken string // JSON/YAML name of a field holding a wrongly typed value: decoding fills the rest, then fails
+	id     int
+	fmt    string // "yaml" | "json"
+	obj    value
+	size   int
 }
 
 type fsFile struct {
@@ -246,6 +247,16 @@ func init() {
 		e.files[path] = &fsFile{data: data, doc: tr.doc}
 		return nil
 	}
+	harnessAPI["verifFSPutDocBroken"] = func(fr *frame, a []value) value {
+		// verifFSPutDocBroken(path, format, v, field): like PutDoc, but `field` holds a wrongly typed value
+		e := fr.i.env
+		path := pathArg(fr.i, a[0])
+		data := e.marshal(a[1].(string), a[2])
+		tr := e.tokenOf[sliceKey(data)]
+		tr.doc.broken = a[3].(string)
+		e.files[path] = &fsFile{data: data, doc: tr.doc}
+		return nil
+	}
 	harnessAPI["verifFSPutBytes"] = func(fr *frame, a []value) value {
 		e := fr.i.env
 		e.files[pathArg(fr.i, a[0])] = &fsFile{data: append([]value(nil), a[1].([]value)...)}
@@ -396,8 +407,39 @@ func (e *envModel) unmarshal(fr *frame, format string, data []value, target valu
 		}
 	}
 	e.decoded++
+	if tr.doc.broken != "" {
+		// a document that is syntactically fine but has one wrongly typed field: the decoder
+		// fills every other field and then reports the error
+		keep := fieldByTag(deref(it.t), *dst, tr.doc.broken)
+		i.assignDecoded(dst, deepCopy(src), it.t)
+		if keep.ok {
+			(*dst).(structure)[keep.idx] = keep.val
+		}
+		return mkErr(format + ": cannot unmarshal string into Go struct field ." + tr.doc.broken)
+	}
 	i.assignDecoded(dst, deepCopy(src), it.t)
 	return iface{}
+}
+
+type keptField struct {
+	ok  bool
+	idx int
+	val value
+}
+
+func fieldByTag(t types.Type, cur value, name string) keptField {
+	st, ok := t.Underlying().(*types.Struct)
+	sv, ok2 := cur.(structure)
+	if !ok || !ok2 {
+		return keptField{}
+	}
+	for k := 0; k < st.NumFields(); k++ {
+		tag := st.Tag(k)
+		if strings.Contains(tag, `"`+name+`"`) || strings.Contains(tag, `"`+name+`,`) || strings.EqualFold(st.Field(k).Name(), name) {
+			return keptField{true, k, sv[k]}
+		}
+	}
+	return keptField{}
 }
 
 // assignDecoded stores src into *dst the way a decoder does: fields tagged
@@ -720,6 +762,24 @@ func init() {
 		return tuple{n, iface{}}
 	}
 	externals["(*os.File).Close"] = func(fr *frame, a []value) value { return iface{} }
+	externals["(*os.File).Stat"] = func(fr *frame, a []value) value {
+		i := fr.i
+		of := i.fileObj(a[0])
+		osp := i.prog.ImportedPackage("os")
+		ft := osp.Type("fileStat").Type()
+		var cell value = zero(ft)
+		st := ft.Underlying().(*types.Struct)
+		sv := cell.(structure)
+		for k := 0; k < st.NumFields(); k++ {
+			switch st.Field(k).Name() {
+			case "size":
+				sv[k] = int64(len(of.data))
+			case "name":
+				sv[k] = of.path
+			}
+		}
+		return tuple{iface{t: types.NewPointer(ft), v: &cell}, iface{}}
+	}
 	harnessAPI["verifAllocBound"] = func(fr *frame, a []value) value {
 		// verifAllocBound(n): from now on every allocation whose size is symbolic
 		// (i.e. derives from input) must be <= n elements; violations are findings
